@@ -18,7 +18,7 @@ import Tahoe.Base.LemmasMerkleHistory
 | the quantifier "histories" | `history_invariant`: along any history of calls (arbitrary int-key batches, accepted or rejected, a pop order per call; model function `runBatches`, which is what the driver runs) the tree keeps its size and root and equals `T` wherever populated |
 | "in any validation order" | every theorem is for an arbitrary `pick` (the `set.pop()` oracle); `order_irrelevant`, `order_irrelevant_int_keys`: accept/reject and the accepted list do not depend on it |
 | "and leaves its state unchanged when it rejects an input" | `rollback` (natural keys, per exception class), `rollback_any_batch` / `every_exception_exit_restores` (arbitrary int keys: every call that does not return normally ends in one of the named exceptions and restores the list); `exits_are_named`: the model has no other exit, and `parent_level_assertion_never_fires` discharges the one `assert` inside the `try:`. An exception of any *other* type out of the real `set_hashes` (e.g. from building an error message) is therefore a correspondence disagreement; the monitor demands the tree unchanged after any exception type (corpus cases for seeds C35-c, C35-e) |
-| the code as it was before the repair | `sound_counterexample_falsy_root`, `rollback_counterexample_falsy_leaf`, `rollback_counterexample_index_error` (`Cfg.asIs`) |
+| the code as it was before fix b65c364 (`Cfg.asIs`: falsy stored hash, IndexError escaping the rollback) | `sound_counterexample_falsy_root`, `rollback_counterexample_falsy_leaf`, `rollback_counterexample_index_error` (`Cfg.asIs`) |
 
 Not covered by a theorem: that `pair_hash` / `empty_leaf_hash` are the SHA-256d tagged hashes and are
 collision-free (hypothesis `PairInjective`; correspondence runs the real hashes); the text of the exception
@@ -30,8 +30,9 @@ genuine batch with values *off* the chain is accepted rather than found insuffic
 
 Vocabulary (Tahoe/Base/Merkle.lean): `Genuine ops T` — `T` is a fully populated Merkle tree; `Agree t T` — the
 partial tree `t` equals `T` wherever populated; `PairInjective ops` — the pair hash is collision-free;
-`StrictPresence ops cfg` — the `if self[i]:` test never takes a stored hash for `None` (the repaired code, or
-the code as it is over hashes that are never `b""`); `Closed` / `SibClosed` — node and sibling known ⇒ parent
+`StrictPresence ops cfg` — the presence test never takes a stored hash for `None` (`Cfg.repaired` = the code in
+/repo since fix b65c364, `is not None`; or `Cfg.asIs` = the earlier `if self[i]:` over hashes that are never `b""`);
+`HInv T t` — right size, root present, agrees with `T`; `Batch` / `runBatches` — one call / a history of calls; `Closed` / `SibClosed` — node and sibling known ⇒ parent
 known / known non-root node ⇒ sibling known (both invariants of successful calls); `pick` — the order in which
 `set.pop()` hands out the red-dotted nodes of a level (any function). Helper lemmas: Tahoe/Base/LemmasMerkle*.lean. -/
 namespace Tahoe.C35
